@@ -28,6 +28,7 @@ func domain() []tbl.PathSpec {
 		{{ASNs: []uint32{65001}}},
 		{{ASNs: []uint32{65001, 65002}}},
 		{{ASNs: []uint32{65001}}, {Set: true, ASNs: []uint32{65003, 65004, 65005}}}, // length 2: a set counts 1
+		{{Set: true, ASNs: []uint32{65010, 65011}}, {ASNs: []uint32{65020, 65030}}}, // length 3: the set is not the last segment
 	}
 	cls := []*[]uint32{nil, {}, {7}, {7, 8}}
 	for _, lp := range []uint32{100, 200} {
@@ -117,7 +118,7 @@ func pick(w int) string {
 
 func main() {
 	vf.Main("C03", "exploration", func(r *vf.Run) {
-		r.Rule("exhaustive ordered pairs of a BGP path domain (LOCAL_PREF{100,200} x AS_PATH{1 ASN, 2 ASNs, 1 ASN + a set} x ORIGIN{0,2} x MED{0,10} x eBGP/iBGP x identifier{1,2} x ORIGINATOR_ID{0,1,3} x CLUSTER_LIST{absent,empty,1,2} x peer address{2}) plus 7 paths that differ only in their IPv6 peer address (differences below and above 2^63 in either 64 bit word); reference = the statement's steps in order; pairs on which every stated step ties are not judged. distinct_nontrivial = ordered pairs decided by a stated step (counted per pair)")
+		r.Rule("exhaustive ordered pairs of a BGP path domain (LOCAL_PREF{100,200} x AS_PATH{1 ASN, 2 ASNs, 1 ASN + a set, a set followed by 2 ASNs} x ORIGIN{0,2} x MED{0,10} x eBGP/iBGP x identifier{1,2} x ORIGINATOR_ID{0,1,3} x CLUSTER_LIST{absent,empty,1,2} x peer address{2}) plus 7 paths that differ only in their IPv6 peer address (differences below and above 2^63 in either 64 bit word); reference = the statement's steps in order; pairs on which every stated step ties are not judged. distinct_nontrivial = ordered pairs decided by a stated step (counted per pair)")
 		r.Assume("ORIGINATOR_ID and CLUSTER_LIST only on iBGP paths", "AS_PATH length counts an AS_SET as 1 (RFC 4271 9.1.2.2 a)")
 		if raw, ok := r.Replaying(); ok {
 			var k kase
